@@ -19,6 +19,8 @@ DIRECTED = [
     ('ecdsa', 'crowd-and-weak', {'s1': 'crowd', 's2': 'msbA', 's3': 'msb384', 's4': 'msbB', 's5': 'msbC'},
      [{'all': False, 'check': 'CheckNonceMSB', 'batch': ['s1', 's2', 's3', 's4', 's5']},
       {'all': False, 'check': 'CheckNonceCommonPrefix', 'batch': ['s2', 's4', 's1', 's5']}]),
+    ('ecdsa', 'behind-u2f-issuer', {'s1': 'u2fA', 's2': 'healthyA', 's3': 'healthyk1', 's4': 'healthyB'},
+     [{'all': False, 'check': 'CheckCr50U2f', 'batch': ['s1', 's2', 's3', 's4']}, {'all': True, 'check': 'ALL', 'batch': ['s3', 's1', 's2']}]),
     ('ec', 'negative-logarithm', {'s1': 'weakprivateneg', 's2': 'weakprivate', 's3': 'weakprivateneg'},
      [{'all': False, 'check': 'CheckWeakECPrivateKey', 'batch': ['s1', 's2', 's3']}]),
     ('ec', 'structured', {'s1': 'weakprivate', 's2': 'healthy', 's3': 'closeA', 's4': 'closeB'},
